@@ -542,8 +542,8 @@ Proof.
     apply R4_timer_close_cb; auto. apply S.
   - assert (H1 : R ext q None (upd_h s h h_set_closed)).
     { destruct H as [S H]. split; [apply SI_upd_h_keep; auto|]. apply R4_set_closed; auto. }
-    pose proof (R_user_cb ext q None _ (EClosed h) beh cnt H1) as X.
-    destruct (user_cb (upd_h s h h_set_closed) (EClosed h) beh cnt) as [[s1 e1] n1]. cbn [fst] in X.
+    pose proof (R_user_cb ext q None _ (EClosed h (live_of s h)) beh cnt H1) as X.
+    destruct (user_cb (upd_h s h h_set_closed) (EClosed h (live_of s h)) beh cnt) as [[s1 e1] n1]. cbn [fst] in X.
     pose proof (IH s1 beh n1 X) as Y.
     destruct (run_closing q s1 beh n1) as [[s2 e2] n2]. exact Y.
 Qed.
@@ -813,8 +813,8 @@ Proof.
     assert (F0 : Fr s s0).
     { split; [|repeat split; auto; apply len_hs_upd_h].
       intros h'. unfold s0. rewrite geth_upd_h. destruct (Nat.eqb h h' && Nat.ltb h (length (hs s))); auto. }
-    pose proof (user_cb_noop s0 (EClosed h) beh cnt (AC_Fr _ _ A F0) (B cnt)) as E.
-    destruct (user_cb s0 (EClosed h) beh cnt) as [[s1 e1] n1]. cbn [fst] in E. subst s1.
+    pose proof (user_cb_noop s0 (EClosed h (live_of s h)) beh cnt (AC_Fr _ _ A F0) (B cnt)) as E.
+    destruct (user_cb s0 (EClosed h (live_of s h)) beh cnt) as [[s1 e1] n1]. cbn [fst] in E. subst s1.
     pose proof (IH s0 beh n1 (AC_Fr _ _ A F0) B) as X.
     destruct (run_closing q s0 beh n1) as [[s2 e2] n2]. cbn [fst] in *.
     destruct X as [X1 X2]. split; [eapply Fr_trans; eauto|].
@@ -946,8 +946,8 @@ Proof.
       intros h'. unfold s0. rewrite geth_upd_h. destruct (Nat.eqb h h' && Nat.ltb h (length (hs s))); auto. }
     assert (E0 : allempty s0).
     { intros h'. unfold s0. rewrite geth_upd_h. destruct (Nat.eqb h h' && Nat.ltb h (length (hs s))); apply E. }
-    pose proof (user_cb_noop s0 (EClosed h) beh cnt (AC_Fr _ _ A F0) (B cnt)) as X.
-    destruct (user_cb s0 (EClosed h) beh cnt) as [[s1 e1] n1]. cbn [fst] in X. subst s1.
+    pose proof (user_cb_noop s0 (EClosed h (live_of s h)) beh cnt (AC_Fr _ _ A F0) (B cnt)) as X.
+    destruct (user_cb s0 (EClosed h (live_of s h)) beh cnt) as [[s1 e1] n1]. cbn [fst] in X. subst s1.
     pose proof (IH s0 beh n1 (AC_Fr _ _ A F0) E0 B) as Y.
     destruct (run_closing q s0 beh n1) as [[s2 e2] n2]. cbn [fst] in *. exact Y.
 Qed.
@@ -1193,8 +1193,8 @@ Proof.
   - assert (H1 : CI (upd_h s h h_set_closed)).
     { eapply CI_flags; [|exact H]. intros h'. rewrite geth_upd_h.
       destruct (Nat.eqb h h' && Nat.ltb h (length (hs s))); auto. }
-    pose proof (CI_user_cb _ (EClosed h) beh cnt H1) as X.
-    destruct (user_cb (upd_h s h h_set_closed) (EClosed h) beh cnt) as [[s1 e1] n1]. cbn [fst] in X.
+    pose proof (CI_user_cb _ (EClosed h (live_of s h)) beh cnt H1) as X.
+    destruct (user_cb (upd_h s h h_set_closed) (EClosed h (live_of s h)) beh cnt) as [[s1 e1] n1]. cbn [fst] in X.
     pose proof (IH s1 beh n1 X) as Y. destruct (run_closing q s1 beh n1) as [[s2 e2] n2]. exact Y.
 Qed.
 
